@@ -2,8 +2,7 @@
    compile / termination theorems, and its preservation by every mandatory reducer.
 
    [wfb x]   every node of x has the arity its kind needs in Tree.build (leaves have no child, the one-child
-             kinds exactly one, a back-reference conditional 1..2, an expression conditional 1..3 -- see
-             [cond2b] for why 1 is in the list), every single-character loop and every Loop / Lazyloop has
+             kinds exactly one, a back-reference conditional 1..2, an expression conditional 2..3), every single-character loop and every Loop / Lazyloop has
              0 <= M <= N <= MaxInt32, every Alternate has a child, and the body of every Loop / Lazyloop is
              one-directional ([dirb false] or [dirb true]);
    [dirb d x] every consuming node of x outside lookarounds and outside the condition of an expression
@@ -213,13 +212,15 @@ Proof. destruct b; reflexivity. Qed.
 
 (* ================================================================ *)
 Section Caps.
-Variable caps : list Z.
+(* membership in the capture table, as a predicate: [fun k => zmem k caps] for the real table, [fun _ => true] when
+   only the shape is wanted *)
+Variable caps : Z -> bool.
 
 (* the group numbers of a Capture (M, and N for a balancing group), a Ref and a BackRefCond (M) are keys of the
    capture table: what the writer's mapCapnum assumes (Extract/Drv10.v nums_okb) *)
 Definition gq (t m n : Z) : bool :=
-  if t =? T_Capture then (if n =? -1 then zmem m caps else zmem n caps && ((m =? -1) || zmem m caps))
-  else zmem m caps.
+  if t =? T_Capture then (if n =? -1 then caps m else caps n && ((m =? -1) || caps m))
+  else caps m.
 
 Definition knd (strict : bool) (x : rnode) : bool :=
   let 'RN t _ _ m n _ _ kids := x in
@@ -231,7 +232,7 @@ Definition knd (strict : bool) (x : rnode) : bool :=
   | KLoop => match kids with [k] => bounds_ok m n && (dirb false k || dirb true k) | _ => false end
   | KUnary => match kids with [_] => negb (t =? T_Capture) || gq t m n | _ => false end
   | KBref => match kids with [_] | [_; _] => gq t m n | _ => false end
-  | KEcond => match kids with [_] | [_; _] | [_; _; _] => true | _ => false end
+  | KEcond => match kids with [_; _] | [_; _; _] => true | _ => false end
   | KBad => false
   end.
 
@@ -882,7 +883,7 @@ Proof. intros [H W]. split; [exact H | exact W]. Qed.
 
 Lemma econd_kids t o ch m n str st kids :
   pre (RN t o ch m n str st kids) -> t = T_ExprCond ->
-  exists c r, kids = c :: r /\ wf c /\ wfl r /\ (length r <= 2)%nat.
+  exists c r, kids = c :: r /\ wf c /\ wfl r /\ (1 <= length r <= 2)%nat.
 Proof.
   intros [H W] ->. unfold knd in H. cbn in H. cbn [n_kids] in W.
   destruct kids as [|c [|c2 [|c3 [|c4 r]]]]; try discriminate; exists c; eexists; (split; [reflexivity|]);
@@ -941,10 +942,10 @@ Proof.
   { apply FIN. assert (t = T_ExprCond) by lia. subst t.
     destruct (econd_kids _ _ _ _ _ _ _ _ P1 eq_refl) as [cond [r [Ek [Wc [Wr Lr]]]]]. subst kids.
     set (kids2 := match cond :: r with [_; _] => (cond :: r) ++ [mk_node T_Empty o1] | _ => cond :: r end) in *.
-    assert (K2 : exists r2, kids2 = cond :: r2 /\ wfl r2 /\ (1 <= length (cond :: r2) <= 3)%nat /\
+    assert (K2 : exists r2, kids2 = cond :: r2 /\ wfl r2 /\ (2 <= length (cond :: r2) <= 3)%nat /\
                   forall d, dirl d r -> dirl d r2).
     { subst kids2. destruct r as [|b [|c r']].
-      - exists []. split; [reflexivity|]. split; [apply wfl_nil|]. split; [cbn; lia | auto].
+      - cbn in Lr. lia.
       - exists [b; mk_node T_Empty o1]. cbn [app]. split; [reflexivity|]. split.
         + apply wfl_cons. split; [apply wfl_cons in Wr; tauto|]. apply wfl_cons. split; [apply wf_mk_node; reflexivity | apply wfl_nil].
         + split; [cbn; lia|]. intros d Hd. apply dirl_cons in Hd. apply dirl_cons. split; [tauto|].
@@ -952,7 +953,7 @@ Proof.
       - exists (b :: c :: r'). split; [reflexivity|]. split; [exact Wr|]. split; [cbn in *; lia | auto]. }
     destruct K2 as [r2 [Ek2 [Wr2 [L2 Dr2]]]]. rewrite Ek2 in E. clearbody kids2. clear Ek2.
     assert (ARITY : forall c0, knd true (RN T_ExprCond o1 ch m n str st (c0 :: r2)) = true).
-    { intros c0. unfold knd. cbn. destruct r2 as [|b [|c [|c4 r']]]; try reflexivity. cbn in L2. lia. }
+    { intros c0. unfold knd. cbn. destruct r2 as [|b [|c [|c4 r']]]; try reflexivity; cbn in L2; lia. }
     assert (DIR : forall c0 d, dirb d (RN T_ExprCond o1 ch m n str st (cond :: r)) = true ->
                    dirb d (RN T_ExprCond o1 ch m n str st (c0 :: r2)) = true).
     { intros c0 d Hd. rewrite dirb_econd in Hd |- *. cbn [tl] in Hd |- *. apply Dr2. exact Hd. }
